@@ -500,12 +500,33 @@ func checkCommandsValidate(c *Ctx) {
 		case strings.HasPrefix(pol, "none"):
 			c.Check("R06b", name+"|"+pol, fi.Decl.Pos(), true, "")
 		case pol == "prerun":
-			var pre *ast.FuncLit
+			var pre *ast.BlockStmt
+			preFi := fi
 			ast.Inspect(fi.Decl.Body, func(m ast.Node) bool {
 				if kv, ok := m.(*ast.KeyValueExpr); ok {
 					if id, ok := kv.Key.(*ast.Ident); ok && id.Name == "PreRunE" {
-						if fl, ok := kv.Value.(*ast.FuncLit); ok {
-							pre = fl
+						switch v := ast.Unparen(kv.Value).(type) {
+						case *ast.FuncLit:
+							pre = v.Body
+						case *ast.Ident:
+							// a named function of the package
+							if fn, ok := fi.Info().ObjectOf(v).(*types.Func); ok {
+								if hf := c.FuncInfoOf(fn); hf != nil && hf.Decl.Body != nil {
+									pre, preFi = hf.Decl.Body, hf
+								}
+							}
+						case *ast.CallExpr:
+							// a constructor of the package that returns the function literal
+							if hf := c.FuncInfoOf(calleeOf(fi.Info(), v)); hf != nil && hf.Decl.Body != nil {
+								ast.Inspect(hf.Decl.Body, func(k ast.Node) bool {
+									if ret, ok := k.(*ast.ReturnStmt); ok && len(ret.Results) == 1 {
+										if fl, ok := ast.Unparen(ret.Results[0]).(*ast.FuncLit); ok && pre == nil {
+											pre, preFi = fl.Body, hf
+										}
+									}
+									return true
+								})
+							}
 						}
 					}
 				}
@@ -515,7 +536,7 @@ func checkCommandsValidate(c *Ctx) {
 				c.Check("R06b", name+"|PreRunE validates", fi.Decl.Pos(), false, "%s has no PreRunE function literal validating the directory", name)
 				continue
 			}
-			checkValidatesFirst(c, fi, pre.Body, name+"|PreRunE validates", nil)
+			checkValidatesFirst(c, preFi, pre, name+"|PreRunE validates", nil)
 		case strings.HasPrefix(pol, "run:"):
 			rf := c.Func("R06b", pCmdapi, "", strings.TrimPrefix(pol, "run:"))
 			if rf == nil {
